@@ -38,7 +38,10 @@ def run(ctx):
                     "free": True, "census": False, "worker": ["", "ops", "dcmsg"][j % 3]})
     for j in range(6 if quick else 60):
         beh.append({"id": len(beh), "closers": [], "graceful": [], "steps": [], "connected": True, "free": False, "census": True})
-    ctx.log("%d schedules + %d free-running + census runs" % (nsched, len(beh) - nsched))
+    for j in range(6 if quick else 60):
+        beh.append({"id": len(beh), "closers": [], "graceful": [], "steps": [], "connected": True, "free": True, "census": False,
+                    "incallback": ["ice", "conn", "dc"][j % 3]})
+    ctx.log("%d schedules + %d free-running, census and close-in-callback runs" % (nsched, len(beh) - nsched))
     binary = vlib.go_build(ctx, "pcclose")
     infile = vlib.write_json(os.path.join(ctx.work, "behaviours.json"), beh)
     trace = os.path.join(ctx.work, "trace.ndjson")
